@@ -263,6 +263,16 @@ func Build(w *World, modes map[string]string) *graphql.Schema {
 		}
 		return l, nil
 	})
+	// a batch field returning structs by value; sources without a B get no entry in the result map (-> null)
+	a.BatchFieldFunc("bv", func(ctx context.Context, m map[batch.Index]*A) (map[batch.Index]B, error) {
+		out := map[batch.Index]B{}
+		for i, x := range m {
+			if b := w.objB(w.Link[x.name+".b"]); b != nil {
+				out[i] = *b
+			}
+		}
+		return out, nil
+	})
 	reg(a, "u", mode("A.u"), func(x *A) (*U, error) { return w.objU(w.Link[x.name+".u"]), w.fail(x.name + ".u") })
 	reg(a, "sq", mode("A.sq"), func(x *A) (*int64, error) { v := x.X * x.X; return &v, w.fail(x.name + ".sq") })
 
@@ -341,7 +351,7 @@ func (w *World) Describe() Desc {
 	}}
 	d.Types["A"] = TypeDesc{Kind: "OBJECT", Key: "id", Members: []string{}, Fields: map[string]TRef{
 		"id": nn(named("Int")), "x": nn(named("Int")), "name": nn(named("String")),
-		"b": named("B"), "bs": list(named("B")), "vbs": list(named("B")), "u": named("U"), "sq": named("Int"),
+		"b": named("B"), "bv": named("B"), "bs": list(named("B")), "vbs": list(named("B")), "u": named("U"), "sq": named("Int"),
 	}}
 	d.Types["B"] = TypeDesc{Kind: "OBJECT", Key: "id", Members: []string{}, Fields: map[string]TRef{
 		"id": nn(named("Int")), "y": nn(named("Int")), "tag": nn(named("String")),
@@ -354,7 +364,7 @@ func (w *World) Describe() Desc {
 	for n, a := range w.As {
 		d.Objs[n] = ObjDesc{Type: "A", M: map[string]tj.T{
 			"id": tj.From(a.Id), "x": tj.From(a.X), "name": tj.From(a.Name),
-			"b": ref(w.Link[n+".b"]), "bs": refs(w.List[n+".bs"]), "vbs": refs(nonEmpty(w.List[n+".bs"])), "u": ref(w.Link[n+".u"]), "sq": tj.From(a.X * a.X),
+			"b": ref(w.Link[n+".b"]), "bv": ref(w.Link[n+".b"]), "bs": refs(w.List[n+".bs"]), "vbs": refs(nonEmpty(w.List[n+".bs"])), "u": ref(w.Link[n+".u"]), "sq": tj.From(a.X * a.X),
 		}}
 	}
 	for n, b := range w.Bs {
